@@ -106,6 +106,10 @@ def candidates(node, path=()):
                 for o in OCC:
                     if o != M.occ(kids[i]):
                         yield 'choose-branch+' + occ_label(M.occ(kids[i]), o), ('s', (kids[i][:-2] + o,), mn, mx)
+        if k == 's' and len(kids) > 1:
+            # one particle of a sequence kept as the single branch of a choice (compositor changed, the others dropped)
+            for i in range(len(kids)):
+                yield 'keep-one-particle-as-choice', ('c', (kids[i],), mn, mx)
         yield f'add-particle:{kind}', (k, kids + (('e', 'c', 1, 1),), mn, mx)
         yield f'add-optional-particle:{kind}', (k, kids + (('e', 'c', 0, 1),), mn, mx)
         if k in 'sc' and len(kids) > 1:
@@ -173,6 +177,7 @@ def judge_content(res, xmlschema, base, cfg, origin, maxlen, rng, limit):
     rng.shuffle(every)
     cands = [c for c in every if not c[0].startswith('choose-branch+')][:limit]
     cands += [c for c in every if c[0].startswith('choose-branch+')][:max(3, limit // 3)]
+    cands += [c for c in every if c[0] == 'keep-one-particle-as-choice' and c not in cands][:2]
     import time
     started = time.monotonic()
     for label, derived in cands:
